@@ -2,7 +2,7 @@
    Nothing but statements, closed by [exact], each followed by Print Assumptions. *)
 From Coq Require Import ZArith QArith List Bool.
 From RV Require Import Base.Wire Base.Text Lang.PyAst Lang.PySem Gen.SafeCasts Lang.ConstEval Lang.ConstEnv
-  Proofs.ConstEvalP Proofs.ConstEnvP.
+  Proofs.ConstEvalP Proofs.ConstEnvP Proofs.ConstEnvFreshP.
 Import ListNotations.
 Open Scope Z_scope.
 
@@ -90,3 +90,27 @@ Theorem C03_remove_unknown_refuted :
   firmware_outputs w_remove [] = Some [VList [VInt 0]] /\ python_outputs w_remove [] = Some [VList [VInt 1]].
 Proof. exact remove_unknown_refuted. Qed.
 Print Assumptions C03_remove_unknown_refuted.
+
+(* inside the guard - the ghost flag [is_fresh] of the environment model: no assignment / append / remove to a name
+   with a known transpile-time value inside an if / while / for body, append and remove only with arguments known at
+   transpile time (and present, for remove), no variable named like a builtin the evaluator interprets, every folded
+   expression inside [in_guard] - the residual program with its baked-in constants produces, on EVERY control-flow
+   path (oracle [orc]: branches taken or not, loops run any number of times), exactly the observations of the source
+   program under the reference Python semantics, whenever Python defines them *)
+Theorem C03_env_fresh_partial : forall p orc out,
+  is_fresh p = true -> python_outputs p orc = Some out -> firmware_outputs p orc = Some out.
+Proof. exact env_fresh. Qed.
+Print Assumptions C03_env_fresh_partial.
+
+Example C03_env_fresh_nonvacuous :
+  is_fresh w_fresh = true /\
+  python_outputs w_fresh [1%nat; 2%nat] = Some [VInt 3; VInt 3; VInt 3; VInt 3; VList [VInt 1; VInt 0; VInt 1]] /\
+  python_outputs w_fresh [0%nat; 0%nat] = Some [VInt 2; VInt 3; VList [VInt 1; VInt 0; VInt 1]].
+Proof. exact fresh_nonvacuous. Qed.
+Print Assumptions C03_env_fresh_nonvacuous.
+
+(* the four refutation witnesses are exactly outside that guard *)
+Theorem C03_witnesses_outside_guard :
+  is_fresh w_shared = false /\ is_fresh w_stale = false /\ is_fresh w_loop = false /\ is_fresh w_remove = false.
+Proof. exact witnesses_outside_guard. Qed.
+Print Assumptions C03_witnesses_outside_guard.
